@@ -27,10 +27,13 @@ HEADER = (
 def load_source(src: str, tag: str):
     d = common.WORK / "scripts" / tag
     d.mkdir(parents=True, exist_ok=True)
+    import os
     h = hashlib.sha256(src.encode()).hexdigest()[:12]
-    name = f"vp_{tag}_{h}"
+    name = f"vp_{tag}_{h}_{os.getpid()}"  # per-process file: parallel workers may generate identical sources
     p = d / f"{name}.py"
-    p.write_text(src)
+    tmp = d / f".{name}.tmp"
+    tmp.write_text(src)
+    os.replace(tmp, p)
     spec = importlib.util.spec_from_file_location(name, p)
     mod = importlib.util.module_from_spec(spec)
     sys.modules[name] = mod
